@@ -13,6 +13,12 @@ Ltac norm_always :=
              let b := eval vm_compute in (always_of v) in change (always_of v) with b
          end.
 
+(* the inferred-type condition of a value whose Python type is in ALWAYS_CHECK holds whatever force_types is *)
+Ltac cond_true ft a :=
+  match goal with
+  | |- context [if ?cnd then _ else _] => replace cnd with true by (destruct ft, (is_tlv a); reflexivity)
+  end.
+
 Lemma xml_name_vqn : forall par m s, xml_name par m s = vqn par m (JStr s).
 Proof. reflexivity. Qed.
 
@@ -45,7 +51,7 @@ Theorem xml_value_str : forall ft c m a s, Builtins m ->
   is_qname_attr a = false -> is_time_attr a = false ->
   xml_reinsert ft c m a (VStr s) = Done m (Some (VStr s)).
 Proof.
-  intros ft c m a s B Q T. unfold xml_reinsert, xml_emit. norm_always. cbn [value_str]. rewrite Q. cbn [andb negb].
+  intros ft c m a s B Q T. unfold xml_reinsert, xml_emit. norm_always. cbn [prov_str]. cbn [value_str]. rewrite Q. cbn [andb negb].
   match goal with |- context [if ?cnd then (Some "xsd:string", _) else _] => destruct cnd eqn:C end;
     unfold xml_read; cbn [x_text x_type x_lang x_ref].
   - rewrite xml_name_vqn.
@@ -58,12 +64,8 @@ Qed.
 Theorem xml_value_int : forall ft c m a z, Builtins m -> plain_attr a ->
   xml_reinsert ft c m a (VInt z) = Done m (Some (VInt z)).
 Proof.
-  intros ft c m a z B [Q [T L]]. unfold xml_reinsert, xml_emit. norm_always. cbn [value_str]. rewrite Q, L. cbn [andb negb].
-  assert (NP : starts_with "prov:" (str_of_Z z) = false).
-  { unfold str_of_Z. destruct (Z.to_int z) as [d|d]; unfold DecimalString.NilZero.string_of_int, DecimalString.NilZero.string_of_uint;
-      destruct d; reflexivity. }
-  rewrite NP. replace ((ft || true || is_tlv a) && true && negb false && true && true)%bool with true
-    by (destruct ft, (is_tlv a); reflexivity).
+  intros ft c m a z B [Q [T L]]. unfold xml_reinsert, xml_emit. norm_always. cbn [prov_str]. cbn [value_str]. rewrite Q, L. cbn [andb negb].
+  cond_true ft a.
   unfold xml_read; cbn [x_text x_type x_lang x_ref]. rewrite xml_name_vqn.
   change "xsd:int" with ("xsd:" ++ "int"). rewrite (vqn_builtin_xsd _ _ _ B).
   rewrite xsd_not_qname by discriminate. unfold insert_value. rewrite Q, T.
@@ -73,10 +75,8 @@ Qed.
 Theorem xml_value_bool : forall ft c m a b, Builtins m -> plain_attr a ->
   xml_reinsert ft c m a (VBool b) = Done m (Some (VBool b)).
 Proof.
-  intros ft c m a b B [Q [T L]]. unfold xml_reinsert, xml_emit. norm_always. cbn [value_str]. rewrite Q, L. cbn [andb negb].
-  replace (starts_with "prov:" (py_bool_str b)) with false by (destruct b; reflexivity).
-  replace ((ft || true || is_tlv a) && true && negb false && true && true)%bool with true
-    by (destruct ft, (is_tlv a); reflexivity).
+  intros ft c m a b B [Q [T L]]. unfold xml_reinsert, xml_emit. norm_always. cbn [prov_str]. cbn [value_str]. rewrite Q, L. cbn [andb negb].
+  cond_true ft a.
   unfold xml_read; cbn [x_text x_type x_lang x_ref]. rewrite xml_name_vqn.
   change "xsd:boolean" with ("xsd:" ++ "boolean"). rewrite (vqn_builtin_xsd _ _ _ B).
   rewrite xsd_not_qname by discriminate. unfold insert_value. rewrite Q, T.
@@ -86,24 +86,22 @@ Proof.
 Qed.
 
 Theorem xml_value_float : forall ft c m a r iv g, Builtins m -> plain_attr a ->
-  starts_with "prov:" r = false -> lookup r (cft c) = Some (Some (r, iv, g)) ->
+  lookup r (cft c) = Some (Some (r, iv, g)) ->
   xml_reinsert ft c m a (VFloat r iv g) = Done m (Some (VFloat r iv g)).
 Proof.
-  intros ft c m a r iv g B [Q [T L]] NP F. unfold xml_reinsert, xml_emit. norm_always. cbn [value_str]. rewrite Q, L, NP. cbn [andb negb].
-  replace ((ft || true || is_tlv a) && true && true && true && true)%bool with true
-    by (destruct ft, (is_tlv a); reflexivity).
+  intros ft c m a r iv g B [Q [T L]] F. unfold xml_reinsert, xml_emit. norm_always. cbn [prov_str]. cbn [value_str]. rewrite Q, L. cbn [andb negb].
+  cond_true ft a.
   unfold xml_read; cbn [x_text x_type x_lang x_ref]. rewrite xml_name_vqn.
   change "xsd:double" with ("xsd:" ++ "double"). rewrite (vqn_builtin_xsd _ _ _ B).
   rewrite xsd_not_qname by discriminate. unfold insert_value. rewrite Q, T.
   apply (entry_path_double c m r iv g "xsd" "double"); [vm_compute; reflexivity | exact F].
 Qed.
 
-Theorem xml_value_uri : forall ft c m a u, Builtins m -> plain_attr a -> starts_with "prov:" u = false ->
+Theorem xml_value_uri : forall ft c m a u, Builtins m -> plain_attr a ->
   xml_reinsert ft c m a (VId u) = Done m (Some (VId u)).
 Proof.
-  intros ft c m a u B [Q [T L]] NP. unfold xml_reinsert, xml_emit. norm_always. cbn [value_str]. rewrite Q, L, NP. cbn [andb negb].
-  replace ((ft || true || is_tlv a) && true && true && true && true)%bool with true
-    by (destruct ft, (is_tlv a); reflexivity).
+  intros ft c m a u B [Q [T L]]. unfold xml_reinsert, xml_emit. norm_always. cbn [prov_str]. cbn [value_str]. rewrite Q, L. cbn [andb negb].
+  cond_true ft a.
   unfold xml_read; cbn [x_text x_type x_lang x_ref]. rewrite xml_name_vqn.
   change "xsd:anyURI" with ("xsd:" ++ "anyURI"). rewrite (vqn_builtin_xsd _ _ _ B).
   rewrite xsd_not_qname by discriminate. unfold insert_value. rewrite Q, T.
@@ -116,10 +114,10 @@ Theorem xml_value_lang : forall ft c m a lex ch l, Builtins m ->
   xml_reinsert ft c m a (VLit lex (Some (prov_qn "InternationalizedString")) (Some (String ch l)))
   = Done m (Some (VLit lex (Some (prov_qn "InternationalizedString")) (Some (String ch l)))).
 Proof.
-  intros ft c m a lex ch l B Q T. unfold xml_reinsert, xml_emit. norm_always.
+  intros ft c m a lex ch l B Q T. unfold xml_reinsert, xml_emit. norm_always. cbn [prov_str].
   replace (intl_string (prov_qn "InternationalizedString")) with true by (vm_compute; reflexivity).
   rewrite Q. cbn [andb negb].
-  assert (E : forall b1 b2, (if (b1 && true && negb (starts_with "prov:" "<Literal") && true && b2)%bool
+  assert (E : forall b1 b2, (if (b1 && true && negb false && true && b2)%bool
                  then (@None string, lex) else (@None string, lex)) = (None, lex)) by (intros [] []; reflexivity).
   match goal with |- context [if ?cnd then _ else _] => destruct cnd end;
     unfold xml_read; cbn [x_text x_type x_lang x_ref]; unfold insert_value; rewrite Q, T;
@@ -133,7 +131,7 @@ Theorem xml_value_ref : forall ft c m a q, Builtins m -> is_qname_attr a = true 
   Bound m q -> printable q ->
   xml_reinsert ft c m a (VQn q) = Done m (Some (VQn q)).
 Proof.
-  intros ft c m a q B Q Bd P. unfold xml_reinsert, xml_emit. norm_always. rewrite Q.
+  intros ft c m a q B Q Bd P. unfold xml_reinsert, xml_emit. norm_always. cbn [prov_str]. rewrite Q.
   pose proof (qn_str_nonempty _ P) as NE. pose proof (Bound_reresolve _ _ Bd P) as R.
   destruct (qn_str q) as [|ch s] eqn:ES; [contradiction|].
   repeat (first [ rewrite andb_false_r | progress cbv beta iota zeta
